@@ -304,7 +304,19 @@ func VerifH_C07_Prompt() {
 			case 1:
 				errs[i] = cli.Publish(ctx, &Message{Topic: "t", QoS: QoS2, Payload: []byte{2}})
 			case 2:
-				_, errs[i] = cli.Subscribe(ctx, Subscription{Topic: "a", QoS: QoS1})
+				// each caller asks for its own filters and QoS; the prompt broker grants what was requested
+				want := []Subscription{{Topic: "a", QoS: QoS1}}
+				if i == 1 {
+					want = []Subscription{{Topic: "b", QoS: QoS2}, {Topic: "c", QoS: QoS0}}
+				}
+				var got []Subscription
+				got, errs[i] = cli.Subscribe(ctx, want...)
+				if errs[i] == nil {
+					verifAssert(len(got) == len(want), "C07.suback_result_length")
+					for k := 0; k < len(got) && k < len(want); k++ {
+						verifAssert(got[k].Topic == want[k].Topic && got[k].QoS == want[k].QoS, "C07.suback_granted_qos_is_its_own")
+					}
+				}
 			case 3:
 				errs[i] = cli.Unsubscribe(ctx, "a")
 			case 4:
